@@ -9,6 +9,8 @@
           `W <kind> <tagtext-hex> <cfg>`  (eighth round) the same text on a field of the given kind; the observation is that of
                                   `T` (what the field's kind does to the bound value is judged end to end by the oracle
                                   placeholder-as-written, which compares two real runs)
+          `R <route> <k> <tagstr-hex>×k <j> <step>×j <cfg>`  (ninth round) sources merged after the start on the default configure
+    out:  `<first>×k / <second>×k`
 -/
 import Ioc.Placeholder
 namespace Driver.Placeholder
@@ -102,9 +104,47 @@ def handleH (toks : List String) : String :=
     | _ => "bad-line"
   | [] => "bad-line"
 
+/-! sources merged after the start: `R <route> <k> <tag-hex>×k <j> <step>×j <cfg>`, step = `D <doc>` | `A <doc>` |
+    `P<path-hex> <value>` → `<first>×k / <second>×k` (`Ioc.Placeholder.resolveAround`); the route names what else the harness
+    runs on real Apps (judged by oracles only) -/
+
+def takeSteps : Nat → List String → Option (List Step × List String)
+  | 0, toks => some ([], toks)
+  | _ + 1, [] => none
+  | j + 1, st :: rest =>
+    match parseVal (2 * rest.length + 2) rest with
+    | some (v, r) =>
+      let step : Option Step :=
+        match st.toList, v with
+        | ['D'], .map d => some (.setConfig d)
+        | ['A'], .map d => some (.addLoader d)
+        | 'P' :: _, v => (hexArg st).map fun p => Step.set p v
+        | _, _ => none
+      match step with
+      | some s => (takeSteps j r).map fun (ss, r') => (s :: ss, r')
+      | none => none
+    | none => none
+
+def handleR (toks : List String) : String :=
+  match toks with
+  | _route :: kt :: rest =>
+    match kt.toNat?.bind (fun k => takeTags k rest) with
+    | some (tags, jt :: rest2) =>
+      match jt.toNat?.bind (fun j => takeSteps j rest2) with
+      | some (steps, rest3) =>
+        match parseVal (2 * rest3.length + 2) rest3 with
+        | some (.map cfg, []) =>
+          let r := resolveAround cfg steps tags
+          joinWith " " (r.1.map showRes ++ ["/"] ++ r.2.map showRes)
+        | _ => "bad-line"
+      | none => "bad-line"
+    | _ => "bad-line"
+  | _ => "bad-line"
+
 def handle (line : String) : String :=
   match line.splitOn " " with
   | "H" :: toks => handleH toks
+  | "R" :: toks => handleR toks
   | "T" :: th :: toks =>
     match fromHex th, parseVal (2 * toks.length + 2) toks with
     | some s, some (.map cfg, []) =>
